@@ -105,6 +105,33 @@ func nilFieldContradictions(c *Ctx, r *Report, rule string, floor int, inPkg fun
 	exceptions := map[string]string{
 		"layer4.(*packetConn).Read|layer4.packetConn.deadlineTimer": "the router sets the read deadline before the first read of every routing (C05.R2 evaluates that on every path of the compiled handler), which creates the timer",
 	}
+	// a helper all of whose calls are made by the function an exception names runs under the same condition
+	var exceptionOwner func(fn *ssa.Function) string
+	ownerMemo := map[*ssa.Function]string{}
+	exceptionOwner = func(fn *ssa.Function) string {
+		if o, ok := ownerMemo[fn]; ok {
+			return o
+		}
+		ownerMemo[fn] = fname(fn)
+		for k := range exceptions {
+			if strings.HasPrefix(k, fname(fn)+"|") {
+				return fname(fn)
+			}
+		}
+		if sites, escapes := c.callSitesOf(fn); !escapes && len(sites) > 0 && fn.Parent() == nil {
+			owner := ""
+			for _, cs := range sites {
+				o := exceptionOwner(cs.Parent())
+				if owner == "" {
+					owner = o
+				} else if owner != o {
+					return fname(fn)
+				}
+			}
+			ownerMemo[fn] = owner
+		}
+		return ownerMemo[fn]
+	}
 	n := 0
 	for _, fn := range c.Funcs {
 		if len(fn.Blocks) == 0 || !inPkg(fn) {
@@ -113,7 +140,7 @@ func nilFieldContradictions(c *Ctx, r *Report, rule string, floor int, inPkg fun
 		for _, d := range unguardedDerefs(c, fn, func(sn, f string) bool { _, ok := mayNil[fkey{sn, f}]; return ok }, 0) {
 			n++
 			construct := d.sn + "." + d.f + " " + d.how
-			if why, ok := exceptions[fname(fn)+"|"+d.sn+"."+d.f]; ok {
+			if why, ok := exceptions[exceptionOwner(fn)+"|"+d.sn+"."+d.f]; ok {
 				r.ok(rule, fname(fn), construct, c.ipos(d.at), "confirmed by reading: "+why)
 				continue
 			}
